@@ -119,3 +119,26 @@ func (t *standalone) SetFault(inject func(r *fakeredis.Req) (fakeredis.Reply, bo
 }
 func (t *standalone) WaitIdle(d time.Duration) bool { return t.srv.WaitNoConns(d) }
 func (t *standalone) Close()                        { t.srv.Close() }
+
+// singlePrimary is a Redis Cluster of one primary that serves every slot: the same server double
+// behind the cluster protocol, so logs, replay of a recorded state and fault hooks are those of
+// the standalone target, while the tool talks to it through its cluster client (a pool of
+// connections per node: a lost reply costs one connection, the client stays usable).
+type singlePrimary struct {
+	standalone
+	cl  *fakeredis.Cluster
+	cfg config.RedisConfig
+}
+
+// NewSinglePrimaryCluster is the TargetFactory of that double.
+func NewSinglePrimaryCluster(o TargetOptions) Target {
+	cl := fakeredis.NewCluster(1, serverOptions())
+	cfg, err := clusterTarget(cl, 1)
+	if err != nil {
+		panic(err)
+	}
+	return &singlePrimary{standalone: standalone{srv: cl.Node(0)}, cl: cl, cfg: cfg}
+}
+
+func (t *singlePrimary) Redis() config.RedisConfig { return t.cfg }
+func (t *singlePrimary) Close()                    { t.cl.Close() }
